@@ -879,3 +879,101 @@ def rule_M5(ctx, rid='M5'):
                'self.%s is not re-created before the split: candidates of an older bound '
                'survive' % m)
     return nev
+
+
+# ---------------------------------------------------------------------------
+# M9 cached proposals are handed out once; pool workers start from a clean, re-seeded copy;
+#    the merged proposals of a union are shuffled before they are cached
+# ---------------------------------------------------------------------------
+
+def rule_M9(ctx, rid='M9'):
+    ctx.rule(rid, 'proposal cache discipline: the rows a bound hands out (`self.points[:n]`) are '
+             'removed from its cache on the same path (`self.points = self.points[n:]`); a pool '
+             'worker resets its copy of the bound with the generator it was given before it '
+             'samples; the proposals of the members of a union are shuffled with the bound\'s '
+             'generator before they enter the cache')
+    prog = ctx.program
+    n = 0
+    for q in ('Union.sample', 'NautilusBound.sample'):
+        f = prog.func(q)
+        cfg = cfg_of(f)
+        sn = f.self_name
+        takes = [nn for nn in cfg.nodes if nn.kind == 'stmt' and isinstance(nn.ast, ast.Assign)
+                 and isinstance(nn.ast.value, ast.Subscript) and
+                 dotted(nn.ast.value.value) == '%s.points' % sn and
+                 isinstance(nn.ast.value.slice, ast.Slice) and
+                 nn.ast.value.slice.lower is None and nn.ast.value.slice.upper is not None and
+                 isinstance(nn.ast.targets[0], ast.Name)]
+        if not takes:
+            ctx.note('%s not decided for %s: hand-out of cached rows not found' % (rid, q))
+            continue
+        for t in takes:
+            up = unparse(t.ast.value.slice.upper)
+            drops = {nn.id for nn in cfg.nodes if nn.kind == 'stmt' and
+                     isinstance(nn.ast, ast.Assign) and
+                     dotted(nn.ast.targets[0]) == '%s.points' % sn and
+                     isinstance(nn.ast.value, ast.Subscript) and
+                     dotted(nn.ast.value.value) == '%s.points' % sn and
+                     isinstance(nn.ast.value.slice, ast.Slice) and
+                     nn.ast.value.slice.upper is None and nn.ast.value.slice.lower is not None
+                     and unparse(nn.ast.value.slice.lower) == up}
+            ok = bool(drops) and cfg.must_pass(t.id, cfg.exit.id, drops)
+            n += 1
+            ctx.ob(rid, '%s:handed-out-rows-leave-the-cache' % q, ok, f.where(t.ast),
+                   'the first %s cached rows are returned and removed from the cache' % up if ok
+                   else 'the rows `%s.points[:%s]` are returned but stay in the cache: the next '
+                   'call hands out the same proposals again' % (sn, up))
+    # pool worker
+    if prog.has_func('NautilusBound._reset_and_sample'):
+        f = prog.func('NautilusBound._reset_and_sample')
+        cfg = cfg_of(f)
+        params = [p for p in f.params if p != f.self_name]
+        resets = [c for c in walk_no_nested(f.node) if isinstance(c, ast.Call) and
+                  dotted(c.func) == '%s.reset' % f.self_name and cfg.has(c)]
+        samples = [c for c in walk_no_nested(f.node) if isinstance(c, ast.Call) and
+                   dotted(c.func) == '%s.sample' % f.self_name and cfg.has(c)]
+        seeded = [c for c in resets if any(
+            isinstance(x, ast.Name) and x.id in params for a in list(c.args) +
+            [k.value for k in c.keywords] for x in ast.walk(a))]
+        ok = bool(seeded) and bool(samples) and all(any(
+            cfg.dominates(cfg.node_of(r).id, cfg.node_of(s_).id) for r in seeded)
+            for s_ in samples)
+        n += 1
+        ctx.ob(rid, 'NautilusBound._reset_and_sample:clean-reseeded-copy', ok, f.where(),
+               'the worker resets its copy (cache, counters) with the generator it received '
+               'before sampling' if ok else
+               'the worker samples without first resetting its copy of the bound with the '
+               'generator it received: every worker starts from the parent\'s cache, counters '
+               'and random state, so the merged proposals contain duplicates')
+    # union: shuffle before caching
+    f = prog.func('Union.sample')
+    cfg = cfg_of(f)
+    sn = f.self_name
+    caches = [nn for nn in cfg.nodes if nn.kind == 'stmt' and isinstance(nn.ast, ast.Assign) and
+              dotted(nn.ast.targets[0]) == '%s.points' % sn and
+              isinstance(nn.ast.value, ast.Call) and
+              dotted(nn.ast.value.func) in ('np.vstack', 'np.concatenate', 'np.append')]
+    merges = [nn for nn in cfg.nodes if nn.kind == 'stmt' and isinstance(nn.ast, ast.Assign) and
+              isinstance(nn.ast.targets[0], ast.Name) and isinstance(nn.ast.value, ast.Call) and
+              dotted(nn.ast.value.func) in ('np.vstack', 'np.concatenate') and any(
+                  isinstance(x, (ast.ListComp, ast.GeneratorExp)) for x in ast.walk(nn.ast.value))]
+    if caches and merges:
+        mname = merges[0].ast.targets[0].id
+        shuf = {nn.id for nn in cfg.nodes if nn.kind == 'stmt' and nn.ast is not None and any(
+            isinstance(c, ast.Call) and isinstance(c.func, ast.Attribute) and
+            c.func.attr in ('shuffle', 'permutation', 'permuted') and
+            dotted(c.func.value) == '%s.rng' % sn and c.args and
+            isinstance(c.args[0], ast.Name) and c.args[0].id == mname
+            for c in ast.walk(nn.ast))}
+        ok = bool(shuf) and all(cfg.must_pass(merges[0].id, c.id, shuf) for c in caches
+                                if cfg.can_reach(merges[0].id, c.id))
+        n += 1
+        ctx.ob(rid, 'Union.sample:shuffled-before-cached', ok, f.where(merges[0].ast),
+               'the proposals of all members are shuffled with the bound\'s generator before '
+               'they are cached' if ok else
+               'the proposals are cached member by member without being shuffled: a caller '
+               'that takes fewer rows than were cached sees the first members only, not a '
+               'uniform draw from the union')
+    else:
+        ctx.note('%s not decided for Union.sample: merge / cache statements not found' % rid)
+    return n
